@@ -1,0 +1,252 @@
+//go:build verif
+
+package lexer
+
+// Machine-checked contracts for the lexer (see /verif/DESIGN.md, C04 and C03).
+// This file contains no declarations: it only carries specification comments
+// that the elkvc verification-condition generator reads.
+
+/*@
+// ---- the scanning window -------------------------------------------------------------------
+// [start, cursor) is the lexeme being scanned; both only move forward inside the source.
+// A token is cut out of the window by tokenWithValue: its span is [start, cursor-1] (an empty
+// window gives the empty span [start, start-1]) and the window restarts at the cursor.  Hence
+// tokens come out in source order, never overlap, and never reach outside the input.
+spec fn wfLex(l *Lexer) bool = l != nil && 0 <= l.start && l.start <= l.cursor && l.cursor <= len(l.source)
+spec fn tokStart(t *token.Token) int = t.Span().StartPos.ByteOffset
+spec fn tokEnd(t *token.Token) int = t.Span().EndPos.ByteOffset
+spec fn wfTok(t *token.Token) bool = t != nil && t.Location() != nil && t.Span() != nil && t.Span().StartPos != nil && t.Span().EndPos != nil
+// the token was cut out of a window that began at or after `from` and the lexer stands right behind it
+spec fn cutFrom(l *Lexer, t *token.Token, from int) bool = wfTok(t) && from <= tokStart(t) && tokStart(t) <= tokEnd(t) + 1 && tokEnd(t) + 1 == l.cursor && l.start == l.cursor
+
+func (*Lexer).hasMoreTokens
+  props C04 C03
+  requires l != nil
+  assigns nothing
+  ensures ret <==> l.cursor < len(l.source)
+
+func (*Lexer).nextChar
+  props C04 C03
+  requires wfLex(l)
+  assigns nothing
+  ensures l.cursor < len(l.source) ==> 1 <= ret1 && ret1 <= 4 && l.cursor + ret1 <= len(l.source)
+  ensures l.cursor == len(l.source) ==> ret1 == 0
+
+func (*Lexer).nextNextChar
+  props C04 C03
+  requires wfLex(l)
+  assigns nothing
+
+func (*Lexer).peekChar
+  props C04 C03
+  requires wfLex(l)
+  assigns nothing
+
+func (*Lexer).peekNextChar
+  props C04 C03
+  requires wfLex(l)
+  assigns nothing
+
+// one character forward: the cursor moves by the width of the decoded rune, never past the end
+func (*Lexer).advanceChar
+  props C04 C03
+  requires wfLex(l)
+  assigns l.cursor, l.column
+  ensures wf: wfLex(l) && l.start == old(l.start)
+  ensures moved: ret1 ==> old(l.cursor) < l.cursor
+  ensures stuck: !ret1 ==> l.cursor == old(l.cursor) && l.cursor == len(l.source) && l.column == old(l.column)
+  ensures step: l.cursor <= old(l.cursor) + 4
+  ensures iff: ret1 <==> old(l.cursor) < len(l.source)
+
+func (*Lexer).advanceChars
+  props C04 C03
+  requires wfLex(l)
+  ensures wf: wfLex(l) && l.start == old(l.start) && l.cursor >= old(l.cursor)
+  ensures atleast: ret && n >= 0 ==> l.cursor >= old(l.cursor) + n
+  loop 1
+    invariant wfLex(l) && l.start == old(l.start) && l.cursor >= old(l.cursor) && 0 <= i && (n >= 0 ==> l.cursor >= old(l.cursor) + i) && l.source == old(l.source)
+    decreases n - i
+
+// one byte back: only inside the window
+func (*Lexer).backupChar
+  props C04 C03
+  requires wfLex(l) && l.cursor > l.start
+  assigns l.cursor, l.column
+  ensures wfLex(l) && l.cursor == old(l.cursor) - 1 && l.start == old(l.start)
+
+func (*Lexer).backupChars
+  props C04 C03
+  requires wfLex(l) && n >= 0 && l.cursor - n >= l.start
+  assigns l.cursor, l.column
+  ensures wfLex(l) && l.cursor == old(l.cursor) - n && l.start == old(l.start)
+
+func (*Lexer).matchChar
+  props C04 C03
+  requires wfLex(l)
+  assigns l.cursor, l.column
+  ensures wf: wfLex(l) && l.start == old(l.start) && l.cursor >= old(l.cursor) && l.cursor <= old(l.cursor) + 4
+  ensures moved: ret ==> l.cursor > old(l.cursor)
+  ensures stay: !ret ==> l.cursor == old(l.cursor) && l.column == old(l.column)
+
+func (*Lexer).matchChars
+  props C04 C03
+  requires wfLex(l)
+  assigns l.cursor, l.column
+  ensures wf: wfLex(l) && l.start == old(l.start) && l.cursor >= old(l.cursor) && l.cursor <= old(l.cursor) + 4
+  ensures moved: ret ==> l.cursor > old(l.cursor)
+  ensures stay: !ret ==> l.cursor == old(l.cursor) && l.column == old(l.column)
+
+func (*Lexer).matchCharsRune
+  props C04 C03
+  requires wfLex(l)
+  assigns l.cursor, l.column
+  ensures wf: wfLex(l) && l.start == old(l.start) && l.cursor >= old(l.cursor)
+  ensures moved: ret0 ==> l.cursor > old(l.cursor)
+  ensures stay: !ret0 ==> l.cursor == old(l.cursor)
+
+func (*Lexer).matchCharN
+  props C04 C03
+  requires wfLex(l)
+  ensures wfLex(l) && l.start == old(l.start) && l.cursor >= old(l.cursor)
+  loop 1
+    invariant wfLex(l) && l.start == old(l.start) && l.cursor >= old(l.cursor) && l.source == old(l.source)
+    decreases n - i
+
+func (*Lexer).matchCharsN
+  props C04 C03
+  requires wfLex(l)
+  ensures wfLex(l) && l.start == old(l.start) && l.cursor >= old(l.cursor)
+  loop 1
+    invariant wfLex(l) && l.start == old(l.start) && l.cursor >= old(l.cursor) && l.source == old(l.source)
+    decreases n - i
+
+// looks ahead and comes back: the cursor ends at or after where it was, inside the window
+func (*Lexer).acceptCharsN
+  props C04 C03
+  requires wfLex(l)
+  ensures wfLex(l) && l.start == old(l.start) && l.cursor >= old(l.cursor)
+  loop 1
+    invariant wfLex(l) && l.start == old(l.start) && 0 <= i && l.cursor >= old(l.cursor) + i && l.source == old(l.source)
+    decreases n - i
+
+func (*Lexer).acceptChars
+  props C04 C03
+  requires wfLex(l)
+  assigns nothing
+
+func (*Lexer).acceptChar
+  props C04 C03
+  requires wfLex(l)
+  assigns nothing
+
+func (*Lexer).acceptNextChar
+  props C04 C03
+  requires wfLex(l)
+  assigns nothing
+
+func (*Lexer).skipByte
+  props C04 C03
+  requires wfLex(l) && l.start < l.cursor
+  assigns l.start, l.startColumn
+  ensures wfLex(l) && l.start == old(l.start) + 1 && l.cursor == old(l.cursor)
+
+func (*Lexer).skipToken
+  props C04 C03
+  requires wfLex(l)
+  assigns l.start, l.startColumn, l.startLine
+  ensures wfLex(l) && l.start == l.cursor && l.cursor == old(l.cursor)
+
+func (*Lexer).incrementLine
+  props C04 C03
+  requires l != nil
+  assigns l.line, l.column
+  ensures l.column == 1
+
+func (*Lexer).swallowNewLines
+  props C04 C03
+  requires wfLex(l)
+  ensures wfLex(l) && l.start == old(l.start) && l.cursor >= old(l.cursor)
+  loop 1
+    invariant wfLex(l) && l.start == old(l.start) && l.cursor >= old(l.cursor) && l.source == old(l.source)
+
+func (*Lexer).foldNewLines
+  props C04 C03
+  requires wfLex(l)
+  ensures wfLex(l) && l.start == old(l.start) && l.cursor >= old(l.cursor)
+
+func (*Lexer).swallowUntil
+  props C04 C03
+  requires wfLex(l)
+  ensures wfLex(l) && l.start == old(l.start) && l.cursor >= old(l.cursor)
+  loop 1
+    invariant wfLex(l) && l.start == old(l.start) && l.cursor >= old(l.cursor) && l.source == old(l.source)
+    decreases len(l.source) - l.cursor
+
+func (*Lexer).isNewLine
+  props C04 C03
+  requires wfLex(l)
+  ensures wfLex(l) && l.start == old(l.start) && l.cursor >= old(l.cursor)
+
+func (*Lexer).tokenValue
+  props C04 C03
+  requires wfLex(l)
+  assigns nothing
+
+// cutting a token: span [start, cursor-1], the window restarts at the cursor
+func (*Lexer).tokenWithValue
+  props C04 C03
+  requires wfLex(l)
+  assigns l.start, l.startColumn, l.startLine, fresh
+  ensures cut: cutFrom(l, ret, old(l.start)) && tokStart(ret) == old(l.start) && l.cursor == old(l.cursor)
+  ensures fresh: fresh(ret)
+  ensures lines: ret.Span().StartPos.Line == old(l.startLine) && ret.Span().StartPos.Column == old(l.startColumn)
+  ensures wf: wfLex(l)
+
+func (*Lexer).token
+  props C04 C03
+  requires wfLex(l)
+  assigns l.start, l.startColumn, l.startLine, fresh
+  ensures cut: cutFrom(l, ret, old(l.start)) && tokStart(ret) == old(l.start) && l.cursor == old(l.cursor) && wfLex(l)
+
+func (*Lexer).tokenWithConsumedValue
+  props C04 C03
+  requires wfLex(l)
+  assigns l.start, l.startColumn, l.startLine, fresh
+  ensures cut: cutFrom(l, ret, old(l.start)) && tokStart(ret) == old(l.start) && l.cursor == old(l.cursor) && wfLex(l)
+
+func (*Lexer).lexError
+  props C04 C03
+  requires wfLex(l)
+  assigns l.start, l.startColumn, l.startLine, fresh
+  ensures cut: cutFrom(l, ret, old(l.start)) && tokStart(ret) == old(l.start) && l.cursor == old(l.cursor) && wfLex(l)
+
+// ---- clients of the token stream -------------------------------------------------------------
+// Colouring copies the source piece by piece: the text between the previous token and this one,
+// then the (coloured) lexeme, and at the end whatever is left.  Every slice expression must be
+// inside the source, which holds exactly because tokens come in order, do not overlap and end
+// inside the input; the pieces are contiguous by construction (each starts where the previous
+// one ended), so removing the colour codes gives back the input.
+func Colorize
+  props C04
+  // the three pieces written per round are exactly source[previousEnd:tokStart], the lexeme
+  // source[tokStart:tokEnd+1] and, at the end, source[previousEnd:]; previousEnd is where the
+  // lexer stands, so consecutive pieces are adjacent
+  assert before WriteString#1: same(missing, source[previousEnd:])
+  assert before WriteString#2: same(between, source[previousEnd:tokStart(tok)])
+  assert before Sprint#1: same(lexeme, source[tokStart(tok):tokEnd(tok)+1]) && tokEnd(tok) + 1 == l.start
+  loop 1
+    invariant l != nil && wfLex(l) && same(l.source, source) && 0 <= previousEnd && previousEnd == l.start
+
+func ColorizeEmbellishedText
+  props C04
+  assert before WriteString#1: same(missing, source[previousEnd:])
+  assert before WriteString#2: same(between, source[previousEnd:tokStart(tok)])
+  assert before Sprint#1: same(lexeme, source[tokStart(tok):tokEnd(tok)+1]) && tokEnd(tok) + 1 == l.start
+  loop 1
+    invariant l != nil && wfLex(l) && same(l.source, source) && 0 <= previousEnd && previousEnd == l.start
+
+func Lex
+  props C04
+  loop 1
+    invariant l != nil && wfLex(l)
+@*/
